@@ -28,7 +28,7 @@ TITLES = {'plain': 'Data', 'space': 'My Sheet', 'quote': "it's", 'dquote': 'say 
 CONSTS = {'int': 42, 'float': 2.5, 'bigint': 12345678901234, 'bool': True, 'text': 'hello', 'text_quote': "it's \"q\"",
           'text_backslash': 'a\\', 'text_newline': 'a\nb', 'text_brace': '{x} {0} %s', 'datetime': datetime.datetime(2024, 1, 2, 3, 4, 5),
           'date': datetime.date(2024, 2, 29), 'time': datetime.time(3, 4, 5), 'timedelta': datetime.timedelta(hours=30),
-          'errstr': '#N/A', 'empty': '', 'numtext': '0012', 'eqtext_const': "'=1+1"}
+          'errstr': '#N/A', 'empty': '', 'numtext': '0012', 'eqtext_const': "'=1+1", 'datatable': 'DATATABLE'}
 FORMULAS = {
     'none': None, 'valid_arith': '=(B1+2)*3-B1/4', 'valid_fn': '=ROUND(SUM(B1:B2,1)/3,2)',
     'valid_nested3': '=IF(B1>1,IF(B1>2,MAX(B1,3),2),1)', 'valid_crosssheet': "={T}!B1+1", 'valid_wholecol': '=SUM(B:B)',
@@ -45,6 +45,7 @@ FORMULAS = {
     'exp_huge': '=1e5000+1', 'long_sum': '=' + '+'.join(['B1'] * 1500), 'sumif_wholecol_target': '=SUMIF(B1:B2,">1",C:C)', 'column_4letters': '=COLUMN(ZZZZ1)',
     # digits that are not ASCII digits (Arabic-Indic three): inside a criterion text and as a number literal
     'crit_unicode_digit': '=COUNTIFS(B1:B2,">\u0663")', 'unicode_digit_literal': '=\u0663+1',
+    'crit_leading_zero': '=SUMIF(B1:B2,">007",C1:C2)',
     'col_beyond_xfd': '=XFE1+1', 'row_huge': '=A99999999+1', 'brackets8': '=((((((((B1))))))))+1',
 }
 
@@ -56,6 +57,10 @@ def build_sheets(d):
     off = (0, 0) if d['place'] == 'origin' else (3, 5)
     cells = {(1, 0): 3, (1, 1): 4, (2, 0): 5, (2, 1): 6}            # B1 B2 C1 C2
     cells[(0 + off[0], 3 + off[1])] = CONSTS[d['const']]
+    if d['const'] == 'datatable':
+        # a what-if data table cell ({=TABLE(..)}): openpyxl delivers an object, not a value
+        from openpyxl.worksheet.formula import DataTableFormula
+        cells[(0 + off[0], 3 + off[1])] = DataTableFormula(ref='A4:A4', dt2D=False, r1='B1')
     if f is not None:
         if f == 'ARRAY':
             from openpyxl.worksheet.formula import ArrayFormula
